@@ -93,7 +93,7 @@ theorem code_surv (x μ l : ℝ) : |esl_gumbel_surv x μ l - gumbelSurv μ l x| 
   set t := exp (-(l * (x - μ))) with ht
   have htpos : 0 < t := exp_pos _
   split_ifs with h
-  · have ht1 : t < 5e-9 := by rw [abs_of_pos htpos] at h; norm_num at h ⊢; exact h
+  · have ht1 : t ≤ 5e-9 := by rw [abs_of_pos htpos] at h; norm_num at h ⊢; first | exact h | exact le_of_lt h
     have := one_sub_exp_neg_approx (t := t) (by rw [abs_of_pos htpos]; linarith)
     have hsq : t ^ 2 ≤ 2.5e-17 := by nlinarith
     exact le_trans this hsq
@@ -107,12 +107,12 @@ theorem code_logsurv (x μ l : ℝ) : |esl_gumbel_logsurv x μ l - log (gumbelSu
   have htpos : 0 < t := exp_pos _
   have hlogt : log t = -(l * (x - μ)) := by rw [ht, log_exp]
   split_ifs with h1 h2
-  · have ht1 : t < 5e-9 := by rw [abs_of_pos htpos] at h1; norm_num at h1 ⊢; exact h1
+  · have ht1 : t ≤ 5e-9 := by rw [abs_of_pos htpos] at h1; norm_num at h1 ⊢; first | exact h1 | exact le_of_lt h1
     have := log_one_sub_exp_neg_approx htpos (by linarith)
     rw [hlogt] at this
     linarith
   · have hc0 : 0 < exp (-t) := exp_pos _
-    have hc1 : exp (-t) < 5e-9 := by rw [abs_of_pos hc0] at h2; norm_num at h2 ⊢; exact h2
+    have hc1 : exp (-t) ≤ 5e-9 := by rw [abs_of_pos hc0] at h2; norm_num at h2 ⊢; first | exact h2 | exact le_of_lt h2
     have := log_one_sub_approx hc0.le (by linarith)
     have e : -exp (-t) - log (1 - exp (-t)) = -(log (1 - exp (-t)) + exp (-t)) := by ring
     rw [e, abs_neg]
@@ -152,7 +152,7 @@ theorem code_invsurv {p μ l : ℝ} (hl : 0 < l) (hp : 0 < p) : |esl_gumbel_invs
   unfold esl_gumbel_invsurv gumbelInvSurv
   simp only [num_log, lit_one]
   split_ifs with h
-  · have hp1 : p < 5e-9 := by norm_num at h ⊢; exact h
+  · have hp1 : p ≤ 5e-9 := by norm_num at h ⊢; first | exact h | exact le_of_lt h
     have := log_neg_log_one_sub_approx hp (by linarith)
     have e : μ - log p / l - (μ - log (-log (1 - p)) / l) = -((log p - log (-log (1 - p))) / l) := by ring
     rw [e, abs_neg, abs_div, abs_of_pos hl]
